@@ -8,8 +8,9 @@ import sweeprun
 ID = "C05"
 MODULE = "HttpcoreModel.Props.C05Pool"      # imports Props.C05 (the Sys theorems)
 THEOREMS = [f"Httpcore.C05.{n}" for n in sweeprun.C05_THEOREMS + ["no_abandoned_after_pass", "quiescent_pool_all_idle", "source_reclaims_abandoned",
-                                                                   "reclaimed_is_unheld", "abandoned_survives_107", "abandoned_reclaimed_now"]]
+                                                                   "reclaimed_is_unheld", "abandoned_survives_107", "abandoned_reclaimed_now"]] + ["Httpcore.Wrap.failed_establishment_is_dropped", "Httpcore.Wrap.establishing_is_kept", "Httpcore.Wrap.establishing_shared_iff_h2_possible", "Httpcore.Wrap.established_delegates", "Httpcore.Wrap.closed_tunnel_not_shared", "Httpcore.Wrap.failed_view_dropped"]
 TRUSTED = [
+    "the status predicates of the three wrapper classes (AsyncHTTPConnection, AsyncTunnelHTTPConnection, AsyncSocks5Connection) are translated from the source (harness/lifetrans.py -> Gen.wrap*) and compared with the real objects in all 2560 combinations of their flags and of the inner connection's answers (harness/wrapb.py, this run)",
     "Lean 4.33 kernel; axioms per theorem under coverage.theorems",
     "hand-written transition-system model Sys (pool + HTTP/1.1 connection life-cycle + callers with scope cancellation and faults), tied to the code by "
     "the fault/cancellation sweeps and the concurrent explorer of this run (direct oracles on the real pool; the model's step relation is compared on "
@@ -45,6 +46,8 @@ def run(ctx, driver):
     concur.explore(ctx, rec, ID, {"p_fault": 0.05, "p_cancel": 0.05, "pool_timeout": 4.0, "gate_close": True, "p_conn_close": 0.4,
                                   "max_connections": 1}, 60, 800, ["C05:"])
     concur.explore(ctx, rec, ID, {"p_fault": 0.1, "p_cancel": 0.1, "http2": True, "max_connections": 1, "p_conn_close": 0.0}, 60, 800, ["C05:"])
+    import wrapb
+    wrapb.run(rec, driver)
     return rec.finish("C05 sweeps + explorer", sweeprun.RULE)
 
 
